@@ -79,17 +79,17 @@ def run_case(rng, res, idx, replaying=False):
                 kap[n] = rm.kappa_eigen(A, G, lam)
         if psd_load and step >= 1 and cfg['F'][1] != 1:
             pass
-        num = sum(float((R[n] * V[n]).sum()) for n in s.layers)
-        den = sum(float((V[n] * V[n]).sum()) for n in s.layers)
-        if den == 0:
+        tols = {n: kh.tol_for(cfg, kap[n], max(V[n].shape), with_factor=(cfg['method'] == 'inverse')) for n in s.layers}  # inverse adds the damping in the factor dtype
+        # the common scalar is fitted on the best-conditioned layer only (an ill-conditioned layer must not pollute the fit)
+        best = min((n for n in s.layers if float((V[n] * V[n]).sum()) > 0), key=lambda n: tols[n], default=None)
+        if best is None:
             res.skip('zero gradient')
             continue
-        nu = num / den
-        worst_tol = 0.0
+        nu = float((R[best] * V[best]).sum()) / float((V[best] * V[best]).sum())
+        worst_tol = tols[best]
         for n in s.layers:
             dim = max(V[n].shape)
-            tol = kh.tol_for(cfg, kap[n], dim, with_factor=(cfg['method'] == 'inverse'))  # inverse adds the damping in the factor dtype
-            worst_tol = max(worst_tol, tol)
+            tol = tols[n] + (tols[best] if n != best else 0.0)
             res.count('layer_checks')
             err = kh.rel_err(R[n], nu * V[n])
             res.maxi('max_err_over_tol', err / tol)
@@ -98,6 +98,8 @@ def run_case(rng, res, idx, replaying=False):
             wg, _ = rm.eig_psd(G)
             med = float(torch.outer(wg, wa).median())
             matters = lam / (med + lam) >= 0.05
+            if float(V[n].norm()) == 0:
+                continue
             if tol < 0.05 and float(D[n].norm()) > 0:
                 res.count('nontrivial_layer_checks')
                 if matters:
@@ -145,12 +147,15 @@ def run_world(rng, res, idx):
             rec = run.results[r]
             D, R, fac = rec['D'][st], rec['layer_grads'][st], rec['factors'][st]
             V, kap = solve_all(cfg, D, fac, lam)
-            den = sum(float((V[n] * V[n]).sum()) for n in D)
-            if den == 0:
+            tols = {n: kh.tol_for(cfg, kap[n], max(V[n].shape), with_factor=(cfg['method'] == 'inverse')) for n in D}
+            best = min((n for n in D if float((V[n] * V[n]).sum()) > 0), key=lambda n: tols[n], default=None)
+            if best is None:
                 continue
-            nu = sum(float((R[n] * V[n]).sum()) for n in D) / den
+            nu = float((R[best] * V[best]).sum()) / float((V[best] * V[best]).sum())
             for n in D:
-                tol = kh.tol_for(cfg, kap[n], max(V[n].shape), with_factor=(cfg['method'] == 'inverse'))
+                if float(V[n].norm()) == 0:
+                    continue
+                tol = tols[n] + (tols[best] if n != best else 0.0)
                 err = kh.rel_err(R[n], nu * V[n])
                 res.count('world_layer_checks')
                 res.maxi('max_world_err_over_tol', err / tol)
